@@ -364,6 +364,11 @@ func (c *Ctx) Finish() int {
 				matched = true
 				fmt.Printf("KNOWN-FINDING: property=%s class=%s cases=%d %s\n", c.ID, v.Class, v.Count, f.Description)
 				known = append(known, v.Class)
+				// keep a replayable witness of the known finding (not the findings file itself)
+				if data, err := json.MarshalIndent(v, "", " "); err == nil {
+					sum := sha256.Sum256([]byte(v.Class))
+					os.WriteFile(filepath.Join(root, "replays", fmt.Sprintf("known-%s-%s.json", c.ID, hex.EncodeToString(sum[:4]))), data, 0o644)
+				}
 				break
 			}
 		}
